@@ -357,7 +357,12 @@ func (p *c12) Run(raw json.RawMessage) eng.Result {
 		}
 		if sym, what := c12Check(sc, run, faults); sym != "" {
 			if len(faults) > 1 {
-				sym = "pair/" + sym
+				if strings.HasPrefix(sym, "dst-choose/") {
+					// the first fault is the (known) swallowed Choose error: the edit carries on, whatever the second fault does
+					sym = "dst-choose/error-swallowed"
+				} else {
+					sym = "pair/" + sym
+				}
 			}
 			report(sym, what, faults[0], k2)
 		}
